@@ -13,7 +13,7 @@ GENERAL_ASSUMPTIONS = [
     "distinct pointer parameters address distinct, non-overlapping buffers (f2py passes separate numpy buffers)",
     "libm/numpy elementary functions are the mathematical functions",
     "malloc/calloc/realloc succeed or their failure is tested by the code",
-    "soundness of the home-made VC generators (verif/csym*.py, verif/pyfront.py, verif/symtrace.py) and of z3/cvc5",
+    "soundness of the home-made VC generators (verif/csym*.py, verif/pysym.py, verif/symtrace.py) and of z3/cvc5",
 ]
 
 
@@ -72,7 +72,14 @@ def run_property(ctx, mod, units, t0):
     # vacuity guard: the hypotheses of the last obligation of every unit (the one with most accumulated facts) must be satisfiable
     vac_obs, vac_units = [], []
     for r in results:
-        cand = [o for o in r.obs if not getattr(o, "trivial", False)]
+        import copy
+        import z3
+        # obligations whose goal is `false` (exit / assert-fail unreachable) have contradictory hypotheses when they hold: not a vacuity signal
+        cand = [o for o in r.obs if not getattr(o, "trivial", False) and not z3.is_false(o.goal)]
+        if not cand and r.obs:
+            o = copy.copy(max(r.obs, key=lambda o: o.nfacts))
+            o.pc = z3.BoolVal(True)           # only the preconditions / invariants, without the (dead) path
+            cand = [o]
         if cand:
             vac_obs.append(max(cand, key=lambda o: o.nfacts + len(o.extra_hyps)))
             vac_units.append(r.name)
